@@ -1193,6 +1193,10 @@ class Interp:
             return VBoundExt(o, attr)
         if isinstance(o, VTuple) and o.ntfields and attr in o.ntfields:
             return o.items[o.ntfields.index(attr)]
+        if isinstance(o, VTuple) and o.ntfields and getattr(self.reg, "nt_strict_attrs", False) and not self.spec_mode \
+                and not hasattr(tuple, attr) and not attr.startswith("_"):
+            # opt-in: a namedtuple without this field raises AttributeError (e.g. RelayV1Hint().priority)
+            self.raise_("AttributeError", VStr(f"'{o.ntname}' object has no attribute '{attr}'"))
         if isinstance(o, VExt):
             if o.name.startswith("repo:"):
                 m2 = source.load_module(o.name[5:])
@@ -1461,6 +1465,14 @@ class Interp:
                 parts.append(z3.StringVal(p.value))
             else:
                 v = self.force(self.eval(p.value, fr))
+                if isinstance(v, VJson) and getattr(self.reg, "percent_json", False) and p.format_spec is None \
+                        and p.conversion in (-1, 115):
+                    # opt-in: str() of a JSON value never raises and is a function of the value: exact for str and int,
+                    # an uninterpreted function of the value otherwise (no fork)
+                    from .models import uf
+                    parts.append(z3.If(J.is_jstr(v.z), J.s(v.z), z3.If(J.is_jint(v.z), int_to_str(J.i(v.z)),
+                                                                         uf("json_str", J, StringS)(v.z))))
+                    continue
                 spec_s = None
                 if p.format_spec is not None and all(isinstance(x, ast.Constant) for x in p.format_spec.values):
                     spec_s = "".join(x.value for x in p.format_spec.values)
@@ -1662,6 +1674,11 @@ class Interp:
                         break
                     a = self.force(args[ai])
                     ai += 1
+                    if isinstance(a, VJson) and getattr(self.reg, "percent_json", False):
+                        # opt-in: a JSON value as %-argument is narrowed to its Python kind; %d of a non-number is CPython's TypeError
+                        a = self.json_narrow(a)
+                        if tk == "%d" and not isinstance(a, (VInt, VBool, VReal)):
+                            self.raise_("TypeError", VStr("%d format: a real number is required"))
                     if tk == "%d" and isinstance(a, VInt):
                         out.append(int_to_str(a.z))
                     elif tk == "%s" and isinstance(a, VStr) and a.kind == fmt.kind:
